@@ -658,6 +658,14 @@ fn spawn_async_ao_list_in_task'''),
         ('plain-operator-strips-tabs', 'brush-parser/src/parser/peg.rs', "                    remove_tabs: false,", "                    remove_tabs: true,"),
         ('backslash-in-the-delimiter-does-not-count-as-quoting', 'brush-parser/src/parser/peg.rs', [("specific_operator(\"<<\") here_tag:here_tag() doc:[_] closing_tag:here_tag() {\n                let requires_expansion = !here_tag.to_str().contains(['\\'', '\"', '\\\\']);", "specific_operator(\"<<\") here_tag:here_tag() doc:[_] closing_tag:here_tag() {\n                let requires_expansion = !here_tag.to_str().contains(['\\'', '\"', '\"']);")]),
     ],
+    'U70': [
+        ('descriptor-search-also-skips-the-shells-own-table', 'brush-core/src/interp.rs', "    while params.open_files.contains_fd(candidate_fd_num) {", "    while params.open_files.contains_fd(candidate_fd_num)\n        || shell.persistent_open_files().contains_fd(candidate_fd_num)\n    {"),
+        ('descriptor-search-starts-at-62', 'brush-core/src/interp.rs', "    let mut candidate_fd_num = 63;", "    let mut candidate_fd_num = 62;"),
+        ('descriptor-search-may-return-zero', 'brush-core/src/interp.rs', "        if candidate_fd_num == 0 {\n            return error::unimp(\"no available file descriptors\");\n        }\n    }\n\n    Ok((candidate_fd_num, target_file))", "        if candidate_fd_num < 0 {\n            return error::unimp(\"no available file descriptors\");\n        }\n    }\n\n    Ok((candidate_fd_num, target_file))"),
+    ],
+    'U71': [
+        ('tilde-user-only-when-the-home-directory-exists', 'brush-core/src/sys/unix/users.rs', "    if let Some(user_info) = uzers::get_user_by_name(username) {\n        return Some(user_info.home_dir().to_path_buf());", "    if let Some(user_info) = uzers::get_user_by_name(username)\n        && user_info.home_dir().is_dir()\n    {\n        return Some(user_info.home_dir().to_path_buf());"),
+    ],
     'U69': [
         ('unmatched-pattern-kept-without-its-quoted-pieces', 'brush-core/src/expansion.rs', "            } else {\n                Ok(vec![String::from(field)])\n            }", "            } else {\n                Ok(vec![String::from(field.clone()), String::from(field)])\n            }"),
         ('nullglob-and-default-swapped', 'brush-core/src/expansion.rs', "            if self.shell.options().expand_non_matching_patterns_to_null {\n                Ok(vec![])", "            if !self.shell.options().expand_non_matching_patterns_to_null {\n                Ok(vec![])"),
